@@ -161,3 +161,88 @@ def install(w, with_parent):
     w.loop(Q, 3, inv=inv_extras, var_types=vt, arrays=DICT_ARRS)
     w.loop(Q, 4, stop=stop, stop_unchanged=False)
     return con
+
+
+# ------------------------------------------------------------------------------------------------ legacy codec (mp_io): four slots
+Q_LEGACY = "metapype.model.mp_io:from_json"
+LEGACY_KEYS = ["id", "attributes", "content", "children"]
+
+
+def install_legacy(w, with_parent):
+    """mp_io.from_json up to its children loop, for a dict with the layout mp_io.objectify is proved to write: fresh node named by the key,
+    registered under slot 0's id, parent link, attributes with exactly the items of slot 1, content of slot 2; children read from slot 3."""
+    def slot_value(s, d, i):
+        b = Val.r(s.dmap(d)[s.dkey(d)[0]])
+        return s.dmap(Val.r(s.at(b, i)))[K(LEGACY_KEYS[i])]
+
+    def requires(s, json_node, parent=None):
+        d = json_node
+        bv = s.dmap(d)[s.dkey(d)[0]]
+        b = Val.r(bv)
+        q = z3.Const("lg_q", Val)
+        cl = {"one-key-the-name": z3.And(d != STORE, s.dn(d) == 1, Val.is_strv(s.dkey(d)[0])), "wf": s.dict_wf(d),
+              "slot-list": z3.And(Val.is_ref(bv), s.alloc(b), kind(b) == KIND_LIST, s.len(b) == 4), "registry": kind(STORE) == KIND_DICT}
+        for i, key in enumerate(LEGACY_KEYS):
+            e = s.at(b, i)
+            r = Val.r(e)
+            cl[f"slot{i}-{key}"] = z3.And(Val.is_ref(e), s.alloc(r), kind(r) == KIND_DICT, r != STORE, r != d, s.dmap(r)[K(key)] != smt.absent)
+            cl[f"slot{i}-wf"] = s.dict_wf(r)
+        cl["id-is-a-string"] = Val.is_strv(slot_value(s, d, 0))
+        av = slot_value(s, d, 1)
+        ar = Val.r(av)
+        cl["attributes-slot"] = z3.Or(av == Val.none, z3.And(Val.is_ref(av), s.alloc(ar), kind(ar) == KIND_DICT, ar != STORE, s.dn(ar) >= 0))
+        cl["attributes-slot-strings"] = z3.Implies(av != Val.none, z3.And(s.dict_wf(ar), smt.FA([q], z3.Or(s.dmap(ar)[q] == smt.absent, Val.is_strv(s.dmap(ar)[q])),
+                                                                                                  patterns=[s.dmap(ar)[q]])))
+        cv = slot_value(s, d, 2)
+        cl["content-slot"] = z3.Or(cv == Val.none, Val.is_strv(cv))
+        kv = slot_value(s, d, 3)
+        cl["children-slot"] = z3.And(Val.is_ref(kv), s.alloc(Val.r(kv)), kind(Val.r(kv)) == KIND_LIST, s.len(Val.r(kv)) >= 0)
+        return cl
+
+    def same_items(s0, s, dst, srcv, upto=None):
+        q = z3.Const("li_q", Val)
+        src = Val.r(srcv)
+        m0, pos = s0.dmap(src), s0.dpos(src)
+        inside = z3.And(srcv != Val.none, m0[q] != smt.absent) if upto is None else z3.And(srcv != Val.none, m0[q] != smt.absent, 0 <= pos[q], pos[q] < upto)
+        size = z3.If(srcv == Val.none, 0, s0.dn(src)) if upto is None else upto
+        return z3.And(smt.FA([q], s.dmap(dst)[q] == z3.If(inside, m0[q], smt.absent), patterns=[s.dmap(dst)[q]]), s.dn(dst) == size)
+
+    def fresh_dict(s0, s, v):
+        r = Val.r(v)
+        return z3.And(Val.is_ref(v), r >= s0.top, r < s.top, kind(r) == KIND_DICT, s.dict_wf(r))
+
+    def basics(s0, s, n, d, parent):
+        k = z3.Const("lb_k", Val)
+        st0, st1 = store_map(s0), store_map(s)
+        idv = slot_value(s0, d, 0)
+        return {"fresh-node": z3.And(n >= s0.top, n < s.top, kind(n) == KIND_NODE), "named-by-the-key": s.f("_name", n) == s0.dkey(d)[0],
+                "id-from-slot-0": s.f("_id", n) == idv, "parent": s.f("_parent", n) == (Val.ref(parent) if with_parent else Val.none),
+                "registered-under-that-id": smt.FA([k], st1[k] == z3.If(k == idv, Val.ref(n), st0[k]), patterns=[st1[k]]),
+                "no-children-yet": z3.And(Val.is_ref(s.f("_children", n)), s.nkids(n) == 0)}
+
+    def inv_attrs(s0, s, v):
+        n, d = Val.r(v.V("node")), v.json_node
+        cl = dict(basics(s0, s, n, d, v.parent if with_parent else None))
+        src = slot_value(s0, d, 1)
+        cl["attributes-so-far"] = z3.And(fresh_dict(s0, s, s.f("_attributes", n)), same_items(s0, s, s.fr("_attributes", n), src, upto=v._k))
+        cl["bound"] = v._k <= s0.dn(Val.r(src))
+        cl["content-initial"] = s.f("_content", n) == Val.none
+        cl["top"] = s.top >= s0.top
+        return cl
+
+    def stop(s0, s, v):
+        n, d = Val.r(v.V("node")), v.json_node
+        cl = {"top:" + k: x for k, x in basics(s0, s, n, d, v.parent if with_parent else None).items()}
+        cl["top:attributes-have-exactly-the-items-of-their-slot"] = z3.And(fresh_dict(s0, s, s.f("_attributes", n)), same_items(s0, s, s.fr("_attributes", n), slot_value(s0, d, 1)))
+        cl["top:content-from-its-slot"] = s.f("_content", n) == slot_value(s0, d, 2)
+        cl["top:children-are-read-from-slot-3"] = v.V("children") == slot_value(s0, d, 3)
+        return cl
+
+    con = Contract(Q_LEGACY, params={"json_node": "dict:val", "parent": "Node" if with_parent else ("const", None)}, requires=requires,
+                   ensures=lambda s0, s, result=None, **kw: {}, allocates=True, result_ty="Node", modular=False,
+                   writes=tuple("F:" + f for f in NODE_FIELDS) + ("llen", "lelem") + DICT_ARRS,
+                   mods={**{a: (lambda s0, r, json_node, **kw: z3.Or(r == STORE, r == json_node)) for a in DICT_ARRS}}, mod=lambda s0, r, **kw: z3.BoolVal(False),
+                   assumptions=("A-uuid", "the dict has the layout mp_io.objectify is proved to write (precondition)"))
+    w.loop(Q_LEGACY, 1, inv=inv_attrs, var_types={"attribute": "str"}, arrays=DICT_ARRS)
+    w.loop(Q_LEGACY, 2, stop=stop, stop_unchanged=False)
+    return con
